@@ -440,7 +440,7 @@ def run_history(case):
                 sid = j[-1] if j else None
                 done = False
                 cls = None
-                if backend == 'file' and sid is not None and sid in before:
+                if backend == 'file' and sid is not None and sid in before and _os.path.isfile(spath(sid)):
                     with open(spath(sid), 'rb') as f:
                         blob = f.read()
                     if how == 'cut':
@@ -952,8 +952,31 @@ def compress_ids(items):
 
 # ----------------------------------------------------------------------------------------------
 def check_cases(ctx, cases, compare=True, shrink=True):
-    results = [run_history(c) for c in cases]
-    _report(ctx, cases, results, compare, shrink)
+    kept, results = [], []
+    for c in cases:
+        try:
+            r = run_history(c)
+        except common.HarnessError:
+            raise
+        except Exception as e:     # the harness' own bookkeeping tripped over what the code left behind
+            import traceback
+            if not ctx.extra.get('_crash'):
+                ctx.extra['_crash'] = '%r on %s\n%s' % (e, json.dumps(c)[:400], traceback.format_exc()[-1200:])
+            continue
+        kept.append(c)
+        results.append(r)
+    _report(ctx, kept, results, compare, shrink)
+
+
+def _crash_verdict(ctx):
+    """A crash inside the harness is a harness error (exit 2) - unless the same run found an input on
+    which the property fails, which is then what gets reported."""
+    crash = ctx.extra.pop('_crash', None)
+    if crash:
+        if ctx.oracle_failures:
+            ctx.note('harness bookkeeping crashed on one history (ignored, a violation was found): ' + crash[:300])
+        else:
+            raise common.HarnessError('run_history crashed: ' + crash)
 
 
 def _report(ctx, cases, results, compare=True, shrink=True):
@@ -1119,6 +1142,7 @@ def run(ctx):
         for cases, results in common.parallel_map(_work_cases, chunks):
             _report(ctx, cases, results)
         ctx.extra['exhaustive_small_scope'] = {'depth': 4, 'histories': len(small)}
+    _crash_verdict(ctx)
     ctx.extra['torn_files_all_offsets'] = len(ctx.extra.pop('_torn_files', ()))
 
 
